@@ -947,3 +947,250 @@ Proof.
   intros st Hcl. destruct (reach_inv K ops) as [_ _ _ Hclosed _]. fold st in Hclosed.
   apply is_started_false. apply Hclosed. exact Hcl.
 Qed.
+
+(* ====================================================================================
+   The machine with rejecting child policies (step, final, run, ...) coincides with the
+   machine above (step_nf, ...) on histories that never configure policy types 2 or 3.
+   ==================================================================================== *)
+
+Definition NF (st : state) : Prop := forall n c, children st n = Some c -> fails c = false.
+
+Lemma start_eq t c : fails c = false -> start_child t c = start_child_nf t c.
+Proof. intros H. unfold start_child, start_child_nf. rewrite H. reflexivity. Qed.
+Lemma fails_stop c : fails (stop_child c) = fails c.
+Proof. unfold stop_child. destruct (started c); reflexivity. Qed.
+Lemma fails_start_nf t c : fails (start_child_nf t c) = fails c.
+Proof. unfold start_child_nf, start_timer. destruct (started c); [reflexivity|]. cbn. destruct (timer c); reflexivity. Qed.
+
+Lemma NF_stop_names st l : NF st -> forall n c, stop_names (children st) l n = Some c -> fails c = false.
+Proof.
+  intros H n c. unfold stop_names. destruct (mem n l); [|apply H].
+  destruct (children st n) as [c0|] eqn:E; cbn; [|discriminate]. intros [= <-].
+  rewrite fails_stop. eapply H; eauto.
+Qed.
+
+Lemma NF_upd st n c1 : NF st -> fails c1 = false -> NF (set_children st (upd (children st) n c1)).
+Proof.
+  intros H Hc m c. cbn. unfold upd. destruct (m =? n); [intros [= <-]; exact Hc | apply H].
+Qed.
+
+Lemma switch_eq st name l : NF st ->
+  switch_to st name l = switch_to_nf st name l /\ NF (switch_to_nf st name l).
+Proof.
+  intros H. pose proof (NF_stop_names st l H) as Hs.
+  unfold switch_to, switch_to_nf. cbn [children set_children].
+  destruct (stop_names (children st) l name) as [c|] eqn:E.
+  - pose proof (Hs _ _ E) as Hc.
+    destruct ((inuse (set_children st (stop_names (children st) l)) =? name) && started c).
+    + split; [reflexivity | exact Hs].
+    + destruct (started c).
+      * split; [reflexivity | exact Hs].
+      * rewrite (start_eq _ _ Hc). split; [reflexivity|].
+        intros m c'. cbn. unfold upd. destruct (m =? name).
+        -- intros [= <-]. rewrite fails_start_nf. exact Hc.
+        -- apply Hs.
+  - split; [reflexivity | exact Hs].
+Qed.
+
+Lemma scan_eq : forall l st u, NF st ->
+  sync_scan st u l = sync_scan_nf st u l /\ NF (sync_scan_nf st u l).
+Proof.
+  induction l as [|name r IH]; intros st u H; cbn [sync_scan sync_scan_nf]; [split; [reflexivity | exact H]|].
+  destruct (children st name) as [c|] eqn:E; [|apply IH; exact H].
+  pose proof (H _ _ E) as Hc.
+  destruct (eligible c _); [|apply IH; exact H].
+  rewrite Hc, andb_false_r.
+  set (st1 := if negb (inuse st =? name) || (name =? u) then emit st (cstate c) (picker c) else st).
+  assert (H1 : NF st1) by (unfold st1; destruct (_ || _); exact H).
+  apply switch_eq. exact H1.
+Qed.
+
+Lemma sync_eq st u : NF st -> sync st u = sync_nf st u /\ NF (sync_nf st u).
+Proof. intros H. unfold sync, sync_nf. apply scan_eq. exact H. Qed.
+
+Lemma child_update_eq st n s pk : NF st ->
+  child_update st n s pk = child_update_nf st n s pk /\ NF (child_update_nf st n s pk).
+Proof.
+  intros H. unfold child_update, child_update_nf.
+  destruct (children st n) as [c|] eqn:E; [|split; [reflexivity | exact H]].
+  destruct (negb (started c)); [split; [reflexivity | exact H]|].
+  apply sync_eq. apply NF_upd; [exact H|].
+  pose proof (H _ _ E) as Hc. unfold fails in *.
+  destruct ((s =? READY) || (s =? IDLE)); [exact Hc|].
+  destruct (s =? TF); [exact Hc|].
+  destruct (negb (tf c) && negb (cstate c =? CONNECTING)); [|exact Hc].
+  unfold start_timer. cbn. destruct (timer c); exact Hc.
+Qed.
+
+Lemma valid_eq K l : forallb (fun p : Z * Z => snd p <? 2) l = true ->
+  valid_config K l = valid_config_nf K l.
+Proof.
+  intros H. unfold valid_config, valid_config_nf. f_equal.
+  induction l as [|p r IH]; [reflexivity|]. cbn in H |- *. apply andb_true_iff in H. destruct H as [Hp Hr].
+  rewrite (IH Hr). f_equal. apply Z.ltb_lt in Hp.
+  destruct ((0 <=? fst p) && (fst p <? K)); [|reflexivity]. cbn.
+  destruct (Z.eqb_spec (snd p) 0), (Z.eqb_spec (snd p) 1), (Z.leb_spec 0 (snd p)), (Z.leb_spec (snd p) 3);
+    cbn; try reflexivity; lia.
+Qed.
+
+Lemma assoc_In2 m : forall l ty, assoc m l = Some ty -> In (m, ty) l.
+Proof.
+  induction l as [|[k v] r IH]; cbn; intros ty H; [discriminate|].
+  destruct (Z.eqb_spec k m); [injection H as <-; subst; left; reflexivity | right; auto].
+Qed.
+
+Lemma config_eq st l : NF st -> forallb (fun p : Z * Z => snd p <? 2) l = true ->
+  config st l = config_nf st l /\ NF (config_nf st l).
+Proof.
+  intros H Hl. unfold config, config_nf.
+  set (ch := fun m => match assoc m l with
+    | None => None
+    | Some ty => match children st m with
+      | None => Some (fresh ty)
+      | Some c => if btype c =? ty then Some c
+                  else Some (mkchild (started (stop_child c)) (cstate (stop_child c))
+                       (picker (stop_child c)) (tf (stop_child c)) (timer (stop_child c)) ty)
+      end end).
+  set (st1 := mkst (now st) (closed st) (inuse st) (map fst l) ch (parent st) (out st)).
+  assert (H1 : NF st1).
+  { intros m c. cbn. unfold ch. destruct (assoc m l) as [ty|] eqn:Ea; [|discriminate].
+    apply assoc_In2 in Ea. rewrite forallb_forall in Hl. specialize (Hl _ Ea). cbn in Hl. apply Z.ltb_lt in Hl.
+    assert (Hty : (2 <=? ty) = false) by (apply Z.leb_gt; lia).
+    destruct (children st m) as [c0|] eqn:E0.
+    - destruct (btype c0 =? ty); intros [= <-]; [eapply H; eauto | exact Hty].
+    - intros [= <-]. exact Hty. }
+  destruct l as [|p l'].
+  - split; [reflexivity|]. exact H1.
+  - apply sync_eq. exact H1.
+Qed.
+
+Lemma fire_all_eq : forall ns st, NF st ->
+  fire_all st ns = fire_all_nf st ns /\ NF (fire_all_nf st ns).
+Proof.
+  induction ns as [|n r IH]; intros st H; cbn [fire_all fire_all_nf]; [split; [reflexivity | exact H]|].
+  destruct (children st n) as [c|] eqn:E; [|apply IH; exact H].
+  destruct (timer c) as [d|]; [|apply IH; exact H].
+  destruct (d =? now st); [|apply IH; exact H].
+  destruct (sync_eq (set_children st (upd (children st) n
+      (mkchild (started c) (cstate c) (picker c) (tf c) None (btype c)))) (-1)) as [A B].
+  { apply NF_upd; [exact H | exact (H _ _ E)]. }
+  rewrite A. apply IH. exact B.
+Qed.
+
+Lemma tick_eq st : NF st -> tick st = tick_nf st /\ NF (tick_nf st).
+Proof. intros H. unfold tick, tick_nf. apply fire_all_eq. exact H. Qed.
+
+Lemma sleep_eq : forall d st, NF st -> sleep d st = sleep_nf d st /\ NF (sleep_nf d st).
+Proof.
+  induction d as [|d IH]; intros st H; cbn [sleep sleep_nf]; [split; [reflexivity | exact H]|].
+  destruct (tick_eq st H) as [A B]. rewrite A. apply IH. exact B.
+Qed.
+
+Lemma step_eq K st op : NF st -> op_nf op = true ->
+  step K st op = step_nf K st op /\ NF (step_nf K st op).
+Proof.
+  intros H Hop. unfold step, step_nf.
+  set (st0 := mkst (now st) (closed st) (inuse st) (prios st) (children st) (parent st) []).
+  assert (H0 : NF st0) by exact H.
+  destruct (closed st); [split; [reflexivity | exact H0]|].
+  destruct op as [|k r]; [split; [reflexivity | exact H0]|].
+  destruct (Z.eq_dec k 1) as [-> | N1].
+  { cbn in Hop. destruct (pairs r) as [l|]; [|split; [reflexivity | exact H0]].
+    rewrite (valid_eq K l Hop). destruct (valid_config_nf K l); [|split; [reflexivity | exact H0]].
+    apply config_eq; assumption. }
+  destruct (Z.eq_dec k 2) as [-> | N2].
+  { destruct r as [|n [|s [|pk [|x r]]]]; try (split; [reflexivity | exact H0]).
+    destruct ((0 <=? s) && (s <=? 3)); [|split; [reflexivity | exact H0]].
+    apply child_update_eq. exact H0. }
+  destruct (Z.eq_dec k 3) as [-> | N3].
+  { destruct r as [|d [|x r]]; try (split; [reflexivity | exact H0]).
+    destruct ((0 <=? d) && (d <=? 30)); [|split; [reflexivity | exact H0]].
+    apply sleep_eq. exact H0. }
+  destruct (Z.eq_dec k 4) as [-> | N4].
+  { destruct r as [|x r]; [|split; [reflexivity | exact H0]]. split; [reflexivity|].
+    intros m c. cbn. apply (NF_stop_names st0 (prios st0) H0). }
+  destruct k as [|k|k]; try (split; [reflexivity | exact H0]).
+  do 3 (destruct k as [k|k|]; try (split; [reflexivity | exact H0]); try congruence).
+Qed.
+
+Lemma NF_init : NF init.
+Proof. intros n c. cbn. discriminate. Qed.
+
+Lemma final_eq K : forall ops st, NF st -> no_failing_types ops = true ->
+  final K st ops = final_nf K st ops /\ NF (final_nf K st ops).
+Proof.
+  induction ops as [|op r IH]; intros st H Hn; cbn; [split; [reflexivity | exact H]|].
+  cbn in Hn. apply andb_true_iff in Hn. destruct Hn as [Ho Hr].
+  destruct (step_eq K st op H Ho) as [A B]. rewrite A. apply IH; assumption.
+Qed.
+
+Lemma run_from_eq K : forall ops st, NF st -> no_failing_types ops = true ->
+  run_from K st ops = run_from_nf K st ops.
+Proof.
+  induction ops as [|op r IH]; intros st H Hn; cbn; [reflexivity|].
+  cbn in Hn. apply andb_true_iff in Hn. destruct Hn as [Ho Hr].
+  destruct (step_eq K st op H Ho) as [A B]. rewrite A. f_equal. apply IH; assumption.
+Qed.
+
+Lemma clauses_from_eq K : forall ops obs st prev i, NF st -> no_failing_types ops = true ->
+  clauses_from K st prev i ops obs = clauses_from_nf K st prev i ops obs.
+Proof.
+  induction ops as [|op r IH]; intros obs st prev i H Hn; destruct obs as [|o r']; cbn; try reflexivity.
+  cbn in Hn. apply andb_true_iff in Hn. destruct Hn as [Ho Hr].
+  destruct (step_eq K st op H Ho) as [A B]. rewrite A. f_equal. apply IH; assumption.
+Qed.
+
+(* ---------- the theorems, transported to the machine with rejecting policies, for
+   histories without rejecting child policies ---------- *)
+
+Lemma final_nf_eq K ops : no_failing_types ops = true -> final K init ops = final_nf K init ops.
+Proof. intros H. apply (final_eq K ops init NF_init H). Qed.
+
+Lemma selection_reading_h K ops : no_failing_types ops = true ->
+  let st := final K init ops in
+  closed st = false -> prios st <> [] ->
+  exists pre post c,
+    prios st = pre ++ inuse st :: post /\ NoDup (prios st) /\
+    children st (inuse st) = Some c /\ started c = true /\
+    (cstate c = READY \/ cstate c = IDLE \/
+     (cstate c = CONNECTING /\ exists d, timer c = Some d /\ now st < d) \/ post = []) /\
+    (forall n, In n pre -> exists c', children st n = Some c' /\ started c' = true /\
+                 timer c' = None /\ (cstate c' = TF \/ cstate c' = CONNECTING)) /\
+    (forall n, In n post -> exists c', children st n = Some c' /\ started c' = false) /\
+    parent st = (cstate c, picker c) /\
+    best (children st) (prios st) = Some (inuse st).
+Proof. intros H. rewrite (final_nf_eq K ops H). exact (selection_reading K ops). Qed.
+
+Lemma started_implies_higher_failed_h K ops m : no_failing_types ops = true ->
+  let st := final K init ops in
+  closed st = false -> is_started st m = true ->
+  forall h, In h (before m (prios st)) ->
+  exists c, children st h = Some c /\ started c = true /\ timer c = None /\
+            (cstate c = TF \/ cstate c = CONNECTING).
+Proof. intros H. rewrite (final_nf_eq K ops H). exact (started_implies_higher_failed K ops m). Qed.
+
+Lemma ready_closes_lower_h K ops n pk : no_failing_types ops = true ->
+  let st := final K init ops in
+  closed st = false -> is_started st n = true ->
+  let st' := step K st [2; n; READY; pk] in
+  forall m, In m (after n (prios st')) -> is_started st' m = false.
+Proof.
+  intros H. destruct (final_eq K ops init NF_init H) as [E HNF]. rewrite E.
+  destruct (step_eq K (final_nf K init ops) [2; n; READY; pk] HNF eq_refl) as [Es _].
+  cbv zeta. rewrite Es. exact (ready_closes_lower K ops n pk).
+Qed.
+
+Lemma closed_nothing_built_h K ops n : no_failing_types ops = true ->
+  let st := final K init ops in
+  closed st = true -> is_started st n = false.
+Proof. intros H. rewrite (final_nf_eq K ops H). exact (closed_nothing_built K ops n). Qed.
+
+Lemma model_trace_holds_h cfg ops : cfg_wf cfg = true -> no_failing_types ops = true ->
+  exists obs, run cfg ops = Some obs /\ holds_b cfg ops obs = true.
+Proof.
+  intros Hw Hn. destruct (model_trace_holds cfg ops Hw) as [obs [Hr Hh]].
+  exists obs. unfold run, holds_b, clauses, run_nf, holds_b_nf, clauses_nf in *.
+  destruct (cfg_K cfg) as [K|]; [|discriminate].
+  rewrite (run_from_eq K ops init NF_init Hn), (clauses_from_eq K ops obs init _ 0 NF_init Hn).
+  split; assumption.
+Qed.
